@@ -39,3 +39,5 @@ def rules(ctx):
     S.cache_reset_rules(ctx)
     S.handle_close_rules(ctx)
     S.state_writer_rules(ctx)
+    S.header_codec_rules(ctx)
+    S.mutator_release_rules(ctx)
